@@ -349,10 +349,38 @@ PROTOCOL_SLOTS = {"self", "cls", "parent", "dependents", "_", "index", "i", "arg
     shuffle_method, split_out ...) is silently ignored: the result stops following the pandas meaning / the knob.""",
 )
 def r21a(ctx):
+    _r21(ctx, lambda mod, cls, fn: True, 1500)
+
+
+@rule(
+    "R21b",
+    ["C13"],
+    """R21a restricted to the repartition entry points and classes (functions named *repartition* or defined in
+    _repartition.py): a layout request parameter (divisions, npartitions, partition_size, freq, force) that is accepted
+    but not forwarded is silently ignored or wrongly rejected.""",
+)
+def r21b(ctx):
+    _r21(ctx, lambda mod, cls, fn: "repartition" in fn.name.lower() or mod.name.endswith("_repartition"), 14)
+
+
+@rule(
+    "R21c",
+    ["C11"],
+    """R21a restricted to the selection entry points (head, tail, partitions, get_partition, to_delayed and the Head / Tail /
+    Partitions classes).""",
+)
+def r21c(ctx):
+    names = ("head", "tail", "partitions", "get_partition", "to_delayed", "_partitions")
+    _r21(ctx, lambda mod, cls, fn: fn.name in names or (cls is not None and cls.name in ("Head", "Tail", "Partitions", "BlockwiseHead", "BlockwiseTail", "PartitionsFiltered")), 12)
+
+
+def _r21(ctx, scope, floor):
     model = ctx.model
     n = 0
     for mod, cls, fn in model.all_functions():
         if mod.name.endswith("_version") or mod.name.startswith("dask_expr.diagnostics"):
+            continue
+        if not scope(mod, cls, fn):
             continue
         body = [s for s in fn.body if not (isinstance(s, ast.Expr) and isinstance(s.value, ast.Constant))]
         if len(body) == 1 and isinstance(body[0], (ast.Raise, ast.Pass)):
@@ -374,4 +402,4 @@ def r21a(ctx):
             else:
                 ctx.bad(cid, mod.loc(fn), f"parameter `{a}` of {fq} is never read: the caller's value is silently ignored (it used to be forwarded, or the option is accepted without effect)")
     ctx.ok("parameters read in their function", "", f"{n} parameters examined")
-    ctx.floor("parameters examined", n, 1500)
+    ctx.floor("parameters examined", n, floor)
